@@ -19,7 +19,8 @@ REQUIRED_THEOREMS = [
     'C09_sens_all_fixed_counterexample_before_f18d571', 'C09_sens_step_indep', 'C09_sens_reselect',
     'C09_sens_history', 'C09_reduced_history', 'C09_simulate_keeps_fixed',
     'C09_reduced_vector', 'C09_reduced_fullVector', 'C09_reduced_vector_cast', 'C09_output_order', 'C09_output_rows',
-    'argsortBy_isArgsort']
+    'argsortBy_isArgsort', 'C09_dose_step', 'C09_dose_history', 'C09_dose_sens_keeps_regimen',
+    'C09_dose_last_regimen', 'C09_dose_solver_last']
 RULE = ('generated SBML compartment models (2-6 states as species in 1-3 compartments or rate-rule '
         'parameters, random identifiers so that alphabetical != declaration order, 2-5 literal constants, '
         'derived constants, intermediary variables, concentration/amount species) and the four library '
@@ -94,6 +95,48 @@ def whole_number_routing(ctx, obj, expect_full, myo, n_s, whole, times, inp, tag
         ctx.spec('C09.const_routing/number_types' + tag_suffix,
                  dict((a, b) for a, b in cc) == {myo[i]: float(expect_full[i]) for i in range(n_s, n_p)}, winp,
                  {'set_constant': cc, 'expected': {myo[i]: float(expect_full[i]) for i in range(n_s, n_p)}})
+
+
+def gen_regimen(rng):
+    """numbers of a dosing regimen whose doses fall into the time grids used here (multiples of 1/8 up to 3)"""
+    reg = {'dose': float(rng.uniform(1.0, 10.0)), 'start': float(rng.choice([0.0, 0.125, 0.25, 0.5, 1.0])),
+           'duration': float(rng.choice([0.0625, 0.125, 0.5])), 'period': None, 'num': None}
+    if rng.random() < 0.5:
+        reg['period'] = float(rng.choice([0.75, 1.0, 1.5]))
+        reg['num'] = None if rng.random() < 0.4 else int(rng.integers(1, 4))
+    return reg
+
+
+def schedule_of(reg, times):
+    """[(on, off, rate)] from the regimen's numbers (never from chi's / myokit's protocol object)"""
+    if reg is None:
+        return None
+    t_end = (float(np.max(times)) if len(times) else 0.0) + 1.0
+    return cf.schedule(reg['dose'], reg['start'], reg['duration'], reg['period'], reg['num'], t_end)
+
+
+def solution_check(ctx, tag, res, oracle, outputs, by_myo, times, wrt, inp):
+    """simulate's result against the solution of the initial-value problem (doses included): `res` is the value
+    array when wrt is None, (values, sensitivities) otherwise"""
+    if isinstance(res, Exception):
+        ctx.spec(tag, False, inp, {'raised': repr(res)[:200]})
+        return
+    if (wrt is not None) != isinstance(res, tuple):
+        ctx.spec(tag, False, inp, {'sensitivities expected': wrt is not None, 'returned a tuple': isinstance(res, tuple)})
+        return
+    ov, os_ = oracle(outputs, by_myo, times, wrt or [])
+    vals = np.asarray(res[0] if wrt is not None else res)
+    if vals.shape != np.asarray(ov).shape:
+        ctx.spec(tag, False, inp, {'shape': vals.shape, 'expected': np.asarray(ov).shape})
+        return
+    err = cf.rel_err(vals, ov, 1e-3)
+    if wrt is not None:
+        if np.asarray(res[1]).shape != np.asarray(os_).shape:
+            ctx.spec(tag, False, inp, {'sensitivity shape': np.asarray(res[1]).shape, 'expected': np.asarray(os_).shape})
+            return
+        err = max(err, cf.rel_err(res[1], os_, 1e-3))
+    ctx.extra['refsim_validation']['comparisons'] += 1
+    ctx.spec(tag, err <= TOL, inp, {'chi': vals, 'oracle': ov, 'rel_err': err})
 
 
 def perm_class(states):
@@ -311,6 +354,13 @@ def check_model(ctx, chi, model, rng, label, oracle=None, inp=None, budget=None,
         except Exception as e:  # noqa
             ctx.spec('C09.sens_order', False, dict(inp, given=given, then_given=given2), {'raised': repr(e)[:200]})
     model.enable_sensitivities(False)
+    # ---- sensitivities switched off again: simulate is the plain solution again (same equations, same doses)
+    if oracle is not None:
+        solution_check(ctx, ('C09.library_equations' if label.startswith('library') else 'C09.values') +
+                       '/after_disabling_sensitivities', sim_record(model, params, times)[0], oracle, log_names,
+                       {myo[i]: float(params[i]) for i in range(n_p)}, times, None,
+                       dict(inp, given=given, history='simulate, enable_sensitivities(True, given), '
+                                                      'enable_sensitivities(False), simulate'))
     # ---- renamed outputs keep their position (published output order)
     if rng.random() < 0.3 and budget.get('rename', True):
         j = int(rng.integers(len(cur_outs)))
@@ -379,14 +429,19 @@ def check_model(ctx, chi, model, rng, label, oracle=None, inp=None, budget=None,
     if budget.get('histories', True):
         check_histories(ctx, chi, model, rng, dargs, states, list(new['inter']), pub, myo, n_s, times, oracle,
                         dict(inp), label)
+    if 'regimen' in inp and getattr(oracle, 'with_regimen', None) is not None and budget.get('histories', True):
+        check_dose_history(ctx, chi, model, rng, pub, myo, oracle, dict(inp), label)
 
 
-def red_request(obj, params, times, enable=True):
-    """what a simulate of `obj` asks the solver for: ['ok', dependents|None, independents|None, columns]"""
+def red_request(obj, params, times, enable=True, keep=None):
+    """what a simulate of `obj` asks the solver for: ['ok', dependents|None, independents|None, columns];
+    the simulation's result is left in keep['res'] when a dict is given"""
     try:
         if enable:
             obj.enable_sensitivities(True)
         res = sim_record(obj, params, times)[0]
+        if keep is not None:
+            keep['res'] = res
         if isinstance(res, Exception):
             raise res
         run = [p for _, c, p in refsim.RECORD if c == 'run'][-1]
@@ -401,6 +456,80 @@ def red_request(obj, params, times, enable=True):
                 int(np.asarray(res[1]).shape[2])]
     except Exception as e:  # noqa
         return [core.errkind(e)]
+
+
+def check_dose_history(ctx, chi, model, rng, pub, myo, oracle, inp, label):
+    """an administered PKPDModel (with or without a regimen) after a history of sensitivities switched on / off
+    (directly, by set_outputs, through a reduced wrapper) and regimens set: simulate returns the solution of the
+    initial-value problem with the doses of the regimen set last"""
+    n_p = len(pub)
+    model.enable_sensitivities(False)
+    params = rng.uniform(0.3, 1.5, n_p)
+    times = np.sort(np.append(rng.choice(np.arange(0, 20) / 8.0, size=2, replace=False), 2.5))
+    log_names = sim_record(model, params, [0.0])[3]
+    if log_names is None:
+        return
+    log_names = list(log_names)
+    regs = [inp['regimen']]
+    codes = [None if model.dosing_regimen() is None else model.dosing_regimen().code()]
+    cur, want_sel, ops, told = 0, None, [], []
+    red = chi.ReducedMechanisticModel(model)
+    try:
+        for _ in range(int(rng.integers(2, 7))):
+            r = rng.random()
+            if r < 0.4:
+                if rng.random() < 0.3:
+                    red.enable_sensitivities(True)
+                    given, how = None, 'reduced.enable_sensitivities(True)'
+                else:
+                    given = None if rng.random() < 0.5 else [pub[int(i)] for i in
+                                                             rng.permutation(n_p)[:int(rng.integers(1, n_p + 1))]]
+                    model.enable_sensitivities(True, given)
+                    how = 'enable_sensitivities(True, %r)' % (given,)
+                want_sel = [i for i in range(n_p) if given is None or pub[i] in given]
+                ops.append(['s', True])
+            elif r < 0.75:
+                k = int(rng.integers(3))
+                if k == 0:
+                    model.enable_sensitivities(False)
+                elif k == 1:
+                    model.set_outputs(log_names)
+                else:
+                    red.enable_sensitivities(False)
+                how = ['enable_sensitivities(False)', 'set_outputs(current outputs)',
+                       'reduced.enable_sensitivities(False)'][k]
+                want_sel = None
+                ops.append(['s', False])
+            else:
+                reg = gen_regimen(rng)
+                model.set_dosing_regimen(**reg)
+                regs.append(reg)
+                codes.append(model.dosing_regimen().code())
+                cur = len(regs) - 1
+                how = 'set_dosing_regimen(%r)' % (reg,)
+                ops.append(['r', cur])
+            told.append(how)
+        hinp = dict(inp, history=told, parameters=params, times=times, regimen_set_last=regs[cur])
+        res = sim_record(model, params, times)[0]
+        run = [p_ for _, c, p_ in refsim.RECORD if c == 'run']
+    except Exception as e:  # noqa
+        ctx.spec('C09.values/after_dose_history', False, dict(inp, history=told), {'raised': repr(e)[:300]})
+        return
+    ctx.case('history/dosing', nontrivial='history/dosing/%s/%s' % (
+        ''.join(o[0] + ('' if o[0] == 'r' else str(int(o[1]))) for o in ops), regs[0] is not None))
+
+    def index_of(code):
+        hits = [k for k, c in enumerate(codes) if c == code and c is not None]
+        return hits[-1] if hits else None
+    now = model.dosing_regimen()
+    chi_side = [bool(model.has_sensitivities()), index_of(None if now is None else now.code()),
+                index_of(run[-1]['protocol']) if run else 'no run']
+    ctx.agree('C09.dose_history', chi_side, ctx.model('C09.dosehistory', regs[0] is not None, ops), hinp)
+    solution_check(ctx, ('C09.library_equations' if label.startswith('library') else 'C09.values') +
+                   '/after_dose_history', res, oracle.with_regimen(regs[cur]), log_names,
+                   {myo[i]: float(params[i]) for i in range(n_p)}, times,
+                   None if want_sel is None else [myo[i] for i in want_sel], hinp)
+    model.enable_sensitivities(False)
 
 
 def check_histories(ctx, chi, model, rng, dargs, states, inter, pub, myo, n_s, times, oracle, inp, label):
@@ -441,7 +570,12 @@ def check_histories(ctx, chi, model, rng, dargs, states, inter, pub, myo, n_s, t
             ops.append(['o', cur_outs])
             want_sel = None
     hinp = dict(inp, history=ops)
-    cs = red_request(model, params, times, enable=False)
+    kept = {}
+    cs = red_request(model, params, times, enable=False, keep=kept)
+    vtag = ('C09.library_equations' if label.startswith('library') else 'C09.values') + '/after_history'
+    if oracle is not None and 'res' in kept:
+        solution_check(ctx, vtag, kept['res'], oracle, cur_outs, {myo[i]: float(params[i]) for i in range(n_p)}, times,
+                       None if want_sel is None else [myo[i] for i in want_sel], hinp)
     mh = ctx.model('C09.senshistory', *dargs, pub, ops)
     ctx.agree('C09.sens_history', cs, mh[:4], hinp)
     ctx.case('history/plain', nontrivial='history/plain/%s' % ''.join(o[0] for o in ops))
@@ -525,7 +659,13 @@ def check_histories(ctx, chi, model, rng, dargs, states, inter, pub, myo, n_s, t
                     all_objects={x['name']: len(x['ops']) for x in objs})
         routing(o, hinp, 'at the end')
         pfree = rng.uniform(0.3, 1.5, len(free))
-        cs = red_request(red, pfree, times, enable=False)
+        kept = {}
+        cs = red_request(red, pfree, times, enable=False, keep=kept)
+        if oracle is not None and 'res' in kept and not (on and free):
+            full = np.array([fixed.get(n, 0.0) for n in pub])
+            full[free] = pfree
+            solution_check(ctx, vtag, kept['res'][0] if isinstance(kept['res'], tuple) else kept['res'], oracle,
+                           o['outs'], {myo[i]: float(full[i]) for i in range(n_p)}, times, None, hinp)
         mh = ctx.model('C09.redhistory', *dargs, pub, ops)
         chi_side = cs + [bool(red.has_sensitivities()), list(red.parameters())] if cs[0] == 'ok' else cs
         ctx.agree('C09.reduced_history', chi_side, mh[:6] if mh[0] == 'ok' else mh, hinp)
@@ -560,10 +700,12 @@ def check_histories(ctx, chi, model, rng, dargs, states, inter, pub, myo, n_s, t
 # ------------------------------------------------------------------------------------------------
 # generated models
 # ------------------------------------------------------------------------------------------------
-def gen_oracle(spec, depot_into=None):
+def gen_oracle(spec, depot_into=None, dosed=None, reg=None):
     """closed form of the generated model; `depot_into` = state id fed by a first-order absorption depot
-    (`dose.drug_amount`, `dose.absorption_rate`) as an indirect administration adds it"""
+    (`dose.drug_amount`, `dose.absorption_rate`) as an indirect administration adds it; `dosed` = state id the
+    dose rate enters directly; `reg` = the numbers of the dosing regimen (None: no doses)"""
     lm = sbmlgen.closed_form(spec)
+    lm.dosed = '__depot' if depot_into is not None else dosed
     st, co, outs = sbmlgen.name_maps(spec)
     if depot_into is not None:
         lm.states.append('__depot')
@@ -578,7 +720,8 @@ def gen_oracle(spec, depot_into=None):
         x0 = {st[n]: v for n, v in by_name.items() if n in st}
         theta = {co[n]: v for n, v in by_name.items() if n in co}
         wrt = [('init', st[n]) if n in st else ('const', co[n]) for n in wrt_names]
-        return lm.solve(x0, theta, times, wrt, [outs[o] for o in outputs])
+        return lm.solve(x0, theta, times, wrt, [outs[o] for o in outputs], schedule_of(reg, times))
+    oracle.with_regimen = lambda r: gen_oracle(spec, depot_into, dosed, r)
     return oracle
 
 
@@ -640,6 +783,22 @@ def administer(ctx, chi, model, rng, comp, amount_var, label, inp):
     return direct, public
 
 
+def dose(ctx, model, rng):
+    """with probability 0.7 give the administered model a dosing regimen; returns its numbers (or None)"""
+    if rng.random() >= 0.7:
+        ctx.branches.add('regimen:none')
+        return None
+    reg = gen_regimen(rng)
+    on = rng.random() < 0.25
+    if on:
+        model.enable_sensitivities(True)         # the regimen is set while sensitivities are on
+    model.set_dosing_regimen(**reg)
+    if on:
+        model.enable_sensitivities(False)
+    ctx.branches.add('regimen:' + ('single' if reg['period'] is None else 'periodic'))
+    return reg
+
+
 def run_generated(ctx, chi, i, rng, budget=None, n_states=None, max_states=6):
     spec = sbmlgen.gen_spec(rng, n_states=n_states, max_states=max_states)
     path = os.path.join(tmpdir(), 'm%d.xml' % i)
@@ -649,15 +808,17 @@ def run_generated(ctx, chi, i, rng, budget=None, n_states=None, max_states=6):
     model = cls(path)
     os.remove(path)
     label = 'generated:%d' % i
-    oracle, pre = gen_oracle(spec), None
+    oracle, pre, inp_extra = gen_oracle(spec), None, {}
     species = [s_ for s_ in spec['states'] if s_['kind'] == 'species']
     if cls is chi.PKPDModel and species and rng.random() < 0.75:
         s_ = species[int(rng.integers(len(species)))]
         direct, pre = administer(ctx, chi, model, rng, s_['comp'], s_['id'] + '_amount', label, {'spec': spec})
-        oracle = gen_oracle(spec, None if direct else s_['id'])
+        reg = dose(ctx, model, rng)
+        oracle = gen_oracle(spec, None if direct else s_['id'], s_['id'] if direct else None, reg)
         label += ':administered'
         budget = dict(budget or {}, default_outputs=False)      # the outputs selected before are kept
-    check_model(ctx, chi, model, rng, label, oracle, {'spec': spec}, budget, pre_renamed=pre)
+        inp_extra = {'direct': direct, 'regimen': reg}
+    check_model(ctx, chi, model, rng, label, oracle, dict({'spec': spec}, **inp_extra), budget, pre_renamed=pre)
 
 
 # ------------------------------------------------------------------------------------------------
@@ -723,20 +884,30 @@ def run_library(ctx, chi, rng, reps):
              'dose.absorption_rate': ('const', 'ka'), 'global.elimination_rate': ('const', 'ke')}
     onames = {'central.drug_concentration': 'C', 'central.drug_amount': 'A', 'dose.drug_amount': 'Ad'}
 
-    def depot_oracle(outputs, by_name, times, wrt_names):
-        return lm.solve({'A': by_name['central.drug_amount'], 'Ad': by_name.get('dose.drug_amount', 0.0)},
-                        {'V': by_name['central.size'], 'ke': by_name['global.elimination_rate'],
-                         'ka': by_name.get('dose.absorption_rate', 1.0)},
-                        times, [names[n] for n in wrt_names], [onames[o] for o in outputs])
+    lm_direct = cf.one_compartment_documented()
+
+    def make_depot_oracle(reg, direct):
+        def oracle(outputs, by_name, times, wrt_names):
+            return (lm_direct if direct else lm).solve(
+                {'A': by_name['central.drug_amount'], 'Ad': by_name.get('dose.drug_amount', 0.0)},
+                {'V': by_name['central.size'], 'ke': by_name['global.elimination_rate'],
+                 'ka': by_name.get('dose.absorption_rate', 1.0)},
+                times, [names[n] for n in wrt_names], [onames[o] for o in outputs], schedule_of(reg, times))
+        oracle.with_regimen = lambda r: make_depot_oracle(r, direct)
+        return oracle
     for r in range(reps):
-        for ctor, lab, orc in ((lib.one_compartment_pk_model, 'library:one_compartment_pk_model', depot_oracle),
+        for ctor, lab, orc in ((lib.one_compartment_pk_model, 'library:one_compartment_pk_model', 'depot'),
                                (lib.erlotinib_tumour_growth_inhibition_model, 'library:erlotinib', None)):
             refsim.clear_record()
             model = ctor()
             direct, pre = administer(ctx, chi, model, rng, 'central', 'drug_amount', lab, {'rep': r})
+            reg = None
+            if orc == 'depot':
+                reg = dose(ctx, model, rng)
+                orc = make_depot_oracle(reg, direct)
             if orc is None and direct:
                 orc = [c for c in library_cases(chi) if c[0].endswith('erlotinib_tumour_growth_inhibition_model')][0][2]
-            check_model(ctx, chi, model, rng, lab + ':administered', orc, {'rep': r, 'direct': direct},
+            check_model(ctx, chi, model, rng, lab + ':administered', orc, {'rep': r, 'direct': direct, 'regimen': reg},
                         {'set_outputs': False, 'default_outputs': False}, pre_renamed=pre)
     # documented published order of the natural non-trivial case
     m = chi.library.ModelLibrary().erlotinib_tumour_growth_inhibition_model()
